@@ -3,7 +3,7 @@ From Coq Require Import List Arith Bool Lia.
 From MV Require Import Model.ListenerUpdate.
 Import ListNotations.
 
-Definition good : lflags := mkF true true true.
+Definition good : lflags := mkF true true true true.
 
 Definition refines (s : lstate) : Prop := forall n, live s n = option_map fresh (stored s n).
 
@@ -12,7 +12,7 @@ Proof. intros n. reflexivity. Qed.
 
 Lemma refines_step s o : refines s -> refines (u_step good s o).
 Proof.
-  intros H k. destruct o as [n c|n]; cbn [u_step good insp_first idle_stored remove_clears].
+  intros H k. destruct o as [n c|n]; cbn [u_step good insp_first idle_stored remove_clears dump_is_live].
   - destruct (live s n) eqn:El, (stored s n) eqn:Es; cbn [live stored]; unfold upd;
       destruct (Nat.eqb k n) eqn:E; cbn [option_map]; try reflexivity; try apply H.
   - cbn [live stored]. unfold upd. destruct (Nat.eqb k n); [reflexivity|apply H].
@@ -26,11 +26,28 @@ Theorem listener_refinement ops : refines (u_run good ops).
 Proof. apply fold_refines. apply refines_init. Qed.
 
 (* consequences *)
-Theorem last_update_wins ops n c : live (u_run good (ops ++ [UAddOrUpdate n c])) n = Some (fresh c).
+(* the last update wins for every field an update applies; the static fields are those of the add that created the listener *)
+Definition after_update (p : option lconf) (c : lconf) : lconf := match p with Some p => merge p c | None => c end.
+
+Theorem last_update_wins ops n c :
+  let s := u_run good ops in
+  live (u_run good (ops ++ [UAddOrUpdate n c])) n = Some (fresh (after_update (stored s n) c)) /\
+  stored (u_run good (ops ++ [UAddOrUpdate n c])) n = Some (after_update (stored s n) c).
 Proof.
-  unfold u_run. rewrite fold_left_app. cbn [fold_left u_step good insp_first idle_stored].
+  cbv zeta. pose proof (listener_refinement ops n) as R.
+  unfold u_run in *. rewrite fold_left_app. cbn [fold_left u_step good insp_first idle_stored dump_is_live].
   destruct (live (fold_left (u_step good) ops s_init) n), (stored (fold_left (u_step good) ops s_init) n);
-    cbn [live]; unfold upd; rewrite Nat.eqb_refl; reflexivity.
+    cbn [live stored after_update]; unfold upd; rewrite Nat.eqb_refl; cbn [option_map] in R; try discriminate R;
+    split; reflexivity.
+Qed.
+
+(* an update never changes the static fields of an existing listener *)
+Theorem update_keeps_static ops n c p :
+  stored (u_run good ops) n = Some p ->
+  option_map lc_static (stored (u_run good (ops ++ [UAddOrUpdate n c])) n) = Some (lc_static p) /\
+  option_map ll_static (live (u_run good (ops ++ [UAddOrUpdate n c])) n) = Some (lc_static p).
+Proof.
+  intros H. destruct (last_update_wins ops n c) as [L S]. cbv zeta in L, S. rewrite H in L, S. rewrite L, S. split; reflexivity.
 Qed.
 
 Theorem removed_is_gone ops n :
